@@ -11,37 +11,10 @@ from typing import Dict, List, Set, Tuple
 
 from ..loader import AnalysisError, Project
 from ..engines.abseval import Evaluator, Sym, Obj, Vec, Unsupported
+from ..engines.npmodel import Cube, GraphObj
 from .. import spec
 
 MOD = "corankco.algorithms.pairwisebasedalgorithm"
-
-
-class Cube(Obj):
-    """n x n x 3 cost matrix of the abstract state."""
-
-    def __init__(self, data: List[List[List[float]]]):
-        super().__init__("Cube")
-        self.data = data
-        self.n = len(data)
-        self.attrs = {"shape": (self.n, self.n, 3)}
-
-    def abs_len(self):
-        return self.n
-
-    def abs_getitem(self, idx, node):
-        if isinstance(idx, tuple) and len(idx) == 3 and isinstance(idx[0], slice) and isinstance(idx[1], slice) \
-                and isinstance(idx[2], int) and idx[0] == slice(None) and idx[1] == slice(None):
-            return Vec([self.data[i][j][idx[2]] for i in range(self.n) for j in range(self.n)])
-        if isinstance(idx, int):
-            if not 0 <= idx < self.n:
-                raise Unsupported("cube row out of range", node)
-            return self.data[idx]
-        if isinstance(idx, tuple) and all(isinstance(i, int) for i in idx):
-            v = self.data
-            for i in idx:
-                v = v[i]
-            return v
-        raise Unsupported(f"cube index {idx!r}", node)
 
 
 def cube_from_cells(n: int, cells: Dict[Tuple[int, int], Tuple[float, float, float]]) -> Cube:
@@ -79,33 +52,6 @@ def np_hooks(n: int) -> Dict:
         raise Unsupported("shape operand", call)
     return {"logical_and": logical(lambda x, y: bool(x) and bool(y)), "logical_or": logical(lambda x, y: bool(x) or bool(y)),
             "where": where, "column_stack": column_stack, "shape": shape}
-
-
-class GraphObj(Obj):
-    def __init__(self):
-        super().__init__("Graph")
-        self.vertices: List = []
-        self.edges: List[Tuple[int, int]] = []
-        self.directed = None
-        self.methods = {
-            "add_vertex": self._add_vertex,
-            "add_vertices": self._add_vertices,
-            "add_edges": self._add_edges,
-            "add_edge": lambda ev, call, a, kw: self.edges.append((a[0], a[1])),
-        }
-
-    def _add_vertex(self, ev, call, a, kw):
-        self.vertices.append(kw.get("name", a[0] if a else None))
-
-    def _add_vertices(self, ev, call, a, kw):
-        if isinstance(a[0], int):
-            self.vertices.extend(str(i) for i in range(a[0]))
-        else:
-            self.vertices.extend(a[0])
-
-    def _add_edges(self, ev, call, a, kw):
-        for e in a[0]:
-            self.edges.append((e[0], e[1]))
 
 
 def eval_graph(proj: Project, cube: Cube) -> GraphObj:
